@@ -27,8 +27,7 @@ Clauses(o, ev, o2) ==
             IF ev.kind = "access" /\ Acc(o, ev.app) >= 1
             THEN <<F("second-access-record",
                      IF App(o, ev.app).kind = "websocket" THEN "websocket"
-                     ELSE IF Wire(o, ev.app).ends > 0 THEN "http-after-complete"
-                     ELSE IF o.gone \/ o.reset \/ o.tfail THEN "http-after-peer-loss"
+                     ELSE IF Get(o.accFirst, ev.app, 0) = -1 THEN "http-closed-record-then-completion-record"
                      ELSE "http")>>
             ELSE <<>>
       [] ev.e = "quiescent" /\ o.final ->
